@@ -2,7 +2,7 @@
    immutable value, so the frame condition holds by construction; what is checked against
    the source of this run is that every write site of the hand-written code targets the
    engine's own state). *)
-From Rules Require Import Eval Histories SourceProofs.
+From Rules Require Import Eval Histories SourceC13.
 
 Theorem C13_write_sites_private : forallb private_target SourceFacts.write_sites = true.
 Proof. exact c13_write_sites_private. Qed.
